@@ -23,20 +23,26 @@ RULE = ("rational-atom circuits of 1-9 commands over the primitives of gaussian_
         "such as {8,1}, {0,9,17}, 9-12 modes of a register of up to 20, 35 % daggered gates, ordered (also "
         "descending) mode pairs, 1-4-mode Interferometer / GaussianTransform / PassiveChannel blocks; float circuits "
         "additionally over the decomposable operations (Pgate, CXgate, CZgate, Xgate, Zgate, Fouriergate); hybrid "
-        "circuits with Kgate/Vgate/CKgate/MeasureFock/MeasureHomodyne for gaussian_merge.  Non-trivial = at least two "
+        "circuits with Kgate/Vgate/CKgate/MeasureFock/MeasureHomodyne for gaussian_merge, also on non-contiguous index "
+        "sets, with Del/New holes, GraphEmbed/BipartiteGraphEmbed/Gaussian; equal operations are ONE shared Operation "
+        "instance within and across programs; programs are compiled twice / interleaved / by two compilers in "
+        "sequence and snapshotted before and after.  Non-trivial = at least two "
         "commands sharing a mode and (a used-mode list that is not 0..k-1 or a daggered command); distinct by spec.")
 ASSUMPTIONS = [
-    "the 2x2/4x4/kxk blocks (thewalrus.symplectic.rotation/squeezing/beam_splitter/two_mode_squeezing/interferometer/"
-    "expand, np.linalg.inv, the MZ matrices) enter the model as data; they are recomputed exactly from the documented "
-    "formulas at rational circle/hyperbola points and the float64 result of the real compiler is compared at 1e-9",
+    "the blocks of Dgate/Rgate/Sgate/BSgate/S2gate/MZgate/sMZgate and of their inverses are computed by the model from "
+    "the parameter atoms (rational circle/hyperbola points) and compared at 1e-9 with the float64 result of the real "
+    "compiler (thewalrus.symplectic.*, np.linalg.inv, the MZ matrices); Interferometer/GaussianTransform/PassiveChannel "
+    "matrices are user data and travel as data; thewalrus.symplectic.expand is modelled by embedRows/xpRows and compared",
     "np.allclose thresholds of the emission (identity matrix / zero displacement) are compared as thresholds",
     "gaussian_merge: commands without a common wire commute; the meaning of an emitted block is validated numerically "
     "against the ordered product of its members for every merge step",
     "Fock-space comparison uses the truncation-escalation rule of DESIGN 1.6",
 ]
 TRUSTED = ["modelled: GaussianUnitary.compile, _apply_symp_one/two_mode_gate, Passive.compile, _apply_one/two_mode_gate "
-           "(used_modes, dict_indices, ord_reg, emission); validated per instance by a proved checker: gaussian_merge",
-           "NetworkX order inside gaussian_merge is not modelled (certificate per step instead)"]
+           "(used_modes, dict_indices, ord_reg, emission, documented gate blocks), the graph surgery of "
+           "merge_a_gaussian_op (edge set compared on every step); validated per instance by a proved checker: the "
+           "result of every gaussian_merge step",
+           "the selection of the commands gaussian_merge merges (NetworkX iteration order) is not modelled"]
 
 TOL = 1e-9
 
@@ -60,26 +66,68 @@ def circuit_error():
 # oracle for gaussian_unitary / passive on the real code (independent reference)
 # ---------------------------------------------------------------------------------------------------------------
 
-def compile_or_error(ctx, spec, compiler, rp):
-    """returns (prog, compiled) or None when compilation raised; a non-circuit error is a failure"""
-    prog, cmds = gc.build(spec)
+OP_CACHE = {}        # equal operations are ONE shared instance within and across the programs of a run
+LAST = {}            # compiler -> (program, signature of its compiled circuit) of the previous case
+
+
+def source_untouched(ctx, before, prog, compiler, rp):
+    after = gc.snapshot(prog)
+    for k in before:
+        if before[k] != after[k]:
+            ctx.fail(f"{compiler}:source-modified", f"compile(compiler='{compiler}') changed the source program ({k})", rp)
+            return False
+    return True
+
+
+def compile_or_error(ctx, spec, compiler, rp, via=None):
+    """returns (prog, compiled) or None when compilation raised; a non-circuit error is a failure.
+    Also: the source program is left untouched, compiling twice gives the same circuit, and compiling another
+    program in between does not change the result (compilers must not keep state)."""
+    prog, cmds = gc.build(spec, op_cache=OP_CACHE)
+    before = gc.snapshot(prog)
     try:
-        comp = prog.compile(compiler=compiler, warn_connected=False)
+        src = prog if via is None else prog.compile(compiler=via, warn_connected=False)
+        comp = src.compile(compiler=compiler, warn_connected=False)
     except circuit_error():
         ctx.tally(f"{compiler}:CircuitError")
+        source_untouched(ctx, before, prog, compiler, rp)
         return None
     except Exception as e:  # noqa: BLE001
         ctx.fail(f"{compiler}:raises:{type(e).__name__}",
                  f"compile(compiler='{compiler}') raised {type(e).__name__}: {str(e)[:80]} (neither a compiled program nor a CircuitError)", rp)
         return None
+    if not source_untouched(ctx, before, prog, compiler, rp):
+        return None
+    if via is None:
+        sig = gc.circuit_signature(list(comp.circuit))
+        try:
+            if ctx.rng.random() < 0.3:
+                again = gc.circuit_signature(list(prog.compile(compiler=compiler, warn_connected=False).circuit))
+                ctx.tally(f"{compiler}:compiled-twice")
+                if again != sig:
+                    ctx.fail(f"{compiler}:second-compile-differs", f"compiling the same program twice with '{compiler}' gives different circuits", rp)
+                    return None
+            if compiler in LAST and ctx.rng.random() < 0.3:
+                p0, sig0, rp0 = LAST[compiler]
+                again = gc.circuit_signature(list(p0.compile(compiler=compiler, warn_connected=False).circuit))
+                ctx.tally(f"{compiler}:recompiled-previous")
+                if again != sig0:
+                    ctx.fail(f"{compiler}:history-dependent", f"'{compiler}' compiles a program differently after another program was compiled",
+                             dict(rp0, then=rp.get("spec")))
+                    return None
+        except Exception as e:  # noqa: BLE001
+            ctx.fail(f"{compiler}:second-compile-raises:{type(e).__name__}", f"a repeated compile with '{compiler}' raised {type(e).__name__}: {str(e)[:80]}", rp)
+            return None
+        LAST[compiler] = (prog, sig, rp)
     return prog, comp
 
 
-def oracle_gu(ctx, spec, run_engine=False):
-    """returns the observed (regs, S, disp) for the correspondence, or None"""
-    rp = dict(kind="gu", spec=gc.strip_ex(spec), engine=run_engine)
+def oracle_gu(ctx, spec, run_engine=False, via=None):
+    """returns the observed (regs, S, disp) for the correspondence, or None.
+    `via='gaussian_merge'`: the program is first compiled with that compiler, the result with gaussian_unitary."""
+    rp = dict(kind="gu", spec=gc.strip_ex(spec), engine=run_engine, via=via)
     ctx.oracle_cases += 1
-    res = compile_or_error(ctx, spec, "gaussian_unitary", rp)
+    res = compile_or_error(ctx, spec, "gaussian_unitary", rp, via=via)
     if res is None:
         return None
     prog, comp = res
@@ -103,6 +151,11 @@ def oracle_gu(ctx, spec, run_engine=False):
             ctx.fail("gu:transform-dropped", f"no GaussianTransform emitted although the net matrix differs from 1 by {maxabs(Sref - np.eye(2 * n)):.3g}", rp)
             return None
     else:
+        if via is not None and regs != modes and set(regs) <= set(modes) and S.shape == (2 * len(regs),) * 2:
+            # two compilers in sequence: the first may legitimately drop a mode on which the net action is the
+            # identity (e.g. BSgate(0, 2 pi)); compare on the source's modes with the identity on the dropped ones
+            E, _ = gc.embed(S, [modes.index(m) for m in regs], n)
+            regs, S = modes, E
         if regs != modes:
             ctx.fail("gu:registers", f"GaussianTransform acts on {regs}, the source used modes {modes}", rp)
             return None
@@ -343,6 +396,11 @@ def compare(ctx, reqs, pending):
             Tm = np.array([[complex(fr(z[0]), fr(z[1])) for z in row] for row in model["T"]])
             if Tm.shape != obs.shape or maxabs(Tm - obs) != 0:
                 ctx.disagree(f"GaussCompile.mix1/mix2 vs {case['fn']}", case, Tm.tolist(), obs.tolist())
+        elif kind == "surgery":
+            m = sorted({(a, b) for a, b in model})
+            if m != [tuple(x) for x in obs]:
+                ctx.disagree("GaussCompile.surgeryEdges vs new_DAG of merge_a_gaussian_op", case,
+                             dict(only_model=sorted(set(m) - set(obs)), only_real=sorted(set(obs) - set(m))), "edge sets differ")
         elif kind == "merge-step":
             if model is not True:
                 ctx.disagree("GaussCompile.checkMerge vs python twin on a gaussian_merge step", case, model, True)
@@ -378,9 +436,49 @@ def rand_float_op(rng, ms, which):
     return dict(cls=cls, regs=regs, pars=pars, dagger=(cls != "LossChannel" and rng.random() < 0.35))
 
 
+def repeat_some(rng, ops, ms):
+    """re-apply earlier operations (same class, parameters and dagger flag -> the SAME Operation instance through
+    OP_CACHE) to other registers: `bs = BSgate(..)` created once and used several times"""
+    out = list(ops)
+    for o in list(ops):
+        if o["cls"] in ("Del", "New") or len(o["regs"]) > len(ms) or rng.random() > 0.25:
+            continue
+        c = {k: (copy.deepcopy(v) if k != "regs" else rng.sample(ms, len(o["regs"]))) for k, v in o.items()}
+        out.insert(rng.randint(0, len(out)), c)
+    return out
+
+
+def rand_embed_op(rng, ms):
+    """GraphEmbed / BipartiteGraphEmbed / Gaussian (decomposable; Gaussian decomposes into preparations -> CircuitError)"""
+    u = rng.random()
+    if u < 0.45 and len(ms) >= 2:
+        k = rng.randint(2, min(3, len(ms)))
+        while True:     # graph_embed rejects (ValueError) matrices with tiny singular values: not a compile matter
+            A = np.array([[round(rng.uniform(-1, 1), 2) for _ in range(k)] for _ in range(k)])
+            A = ((A + A.T) / 2).round(3)
+            if np.linalg.svd(A, compute_uv=False).min() > 0.05:
+                break
+        return dict(cls="GraphEmbed", regs=rng.sample(ms, k), pars=[dict(rmat=A.tolist())],
+                    kw=dict(mean_photon_per_mode=rng.choice([0.2, 0.5, 1.0])), dagger=False)
+    if u < 0.85 and len(ms) >= 2:
+        k = 1 if len(ms) < 4 else rng.randint(1, 2)
+        while True:
+            B = [[round(rng.uniform(-1, 1), 2) for _ in range(k)] for _ in range(k)]
+            if np.linalg.svd(np.array(B), compute_uv=False).min() > 0.05:
+                break
+        return dict(cls="BipartiteGraphEmbed", regs=rng.sample(ms, 2 * k), pars=[dict(rmat=B)],
+                    kw=dict(mean_photon_per_mode=rng.choice([0.2, 0.5]), edges=True), dagger=False)
+    k = 1
+    V = [[rng.choice([1.0, 2.0, 0.5]), 0.0], [0.0, rng.choice([1.0, 2.0])]]
+    return dict(cls="Gaussian", regs=rng.sample(ms, k), pars=[dict(rmat=V)], dagger=False)
+
+
 def rand_float_circuit(rng, which, big=False):
     n, ms = gc.rand_modes(rng, big)
     ops = [rand_float_op(rng, ms, which) for _ in range(rng.randint(1, 10))]
+    ops = repeat_some(rng, ops, ms)
+    if which == "gu" and rng.random() < 0.2:
+        ops.insert(rng.randint(0, len(ops)), rand_embed_op(rng, ms))
     if rng.random() < 0.05:     # deleting a mode cannot be expressed by one transformation: must be rejected
         ops.append(dict(cls="Del", regs=[rng.choice(ms)], pars=[], dagger=False))
     return dict(n=n, ops=ops)
@@ -394,16 +492,18 @@ GAUSSIAN = ["Dgate", "BSgate", "S2gate", "Sgate", "GaussianTransform", "Rgate", 
 
 
 def rand_hybrid(rng, small=False):
-    n = rng.randint(1, 3) if small else rng.randint(1, 5)
-    ms = list(range(n))
+    if small or rng.random() < 0.6:
+        n = rng.randint(1, 3) if small else rng.randint(1, 5)
+        ms = list(range(n))
+    else:                       # non-contiguous / multi-digit index sets in a larger register
+        n, ms = gc.rand_modes(rng)
+        ms = ms[:5]
     ops = []
     measured = set()
-    for _ in range(rng.randint(2, 7 if small else 10)):
-        free = [m for m in ms if m not in measured]
-        if not free:
-            break
+    amp = 0.25 if small else 0.6
+
+    def one(free):
         u = rng.random()
-        amp = 0.25 if small else 0.6
         if u < 0.55:
             op = rand_float_op(rng, free, "gu")
             if op["cls"] in ("Sgate", "S2gate", "Pgate", "CXgate", "CZgate", "Dgate", "Xgate", "Zgate"):
@@ -420,14 +520,36 @@ def rand_hybrid(rng, small=False):
                 op = dict(cls="MeasureHomodyne", regs=regs, pars=[0.0], dagger=False)
             else:
                 op = dict(cls="MeasureFock", regs=regs, pars=[], dagger=False)
-            measured |= set(regs)
+            measured.update(regs)
         else:
             op = dict(cls="Kgate", regs=[rng.choice(free)], pars=[0.1], dagger=False)
-        ops.append(op)
-    if not small and rng.random() < 0.1:
+        return op
+    for _ in range(rng.randint(2, 7 if small else 10)):
         free = [m for m in ms if m not in measured]
-        if free:
-            ops.append(dict(cls="Del", regs=[rng.choice(free)], pars=[], dagger=False))
+        if not free:
+            break
+        ops.append(one(free))
+    if not small:
+        free = [m for m in ms if m not in measured]
+        if free and rng.random() < 0.3:
+            ops = repeat_some(rng, ops, free) if not measured else ops
+        if len(free) >= 2 and rng.random() < 0.12:
+            ops.insert(rng.randint(0, len(ops)) if not measured else 0, rand_embed_op(rng, free))
+        # holes in the register: delete a mode after its last use, create modes later and use them
+        if free and rng.random() < 0.3:
+            d = rng.choice(free)
+            last = max([i for i, o in enumerate(ops) if d in o["regs"]], default=-1)
+            t = rng.randint(last + 1, len(ops))
+            ops.insert(t, dict(cls="Del", regs=[d], pars=[], dagger=False))
+            free = [m for m in free if m != d]
+            if rng.random() < 0.6:
+                k = rng.randint(1, 2)
+                new = list(range(n, n + k))
+                t2 = rng.randint(t + 1, len(ops))
+                tail = [dict(cls="New", regs=new, pars=[], dagger=False)]
+                for _ in range(rng.randint(1, 4)):
+                    tail.append(one(new + free))
+                ops = ops[:t2] + tail + ops[t2:] if not measured else ops + tail
     return dict(n=n, ops=ops)
 
 
@@ -474,13 +596,15 @@ def check_merge(ctx, spec, reqs, pending, fock=False):
                           None if dag is None else (list(dag.nodes), list(dag.edges))))
             return r
 
-    prog, cmds = gc.build(spec)
+    prog, cmds = gc.build(spec, op_cache=OP_CACHE)
+    snap = gc.snapshot(prog)
     orig = gm.GaussianUnitary
     gm.GaussianUnitary = RecGU
     try:
         comp = prog.compile(compiler=RecMerge(), warn_connected=False)
     except circuit_error():
         ctx.tally("gaussian_merge:CircuitError")
+        source_untouched(ctx, snap, prog, "gaussian_merge", rp)
         return
     except Exception as e:  # noqa: BLE001
         ctx.fail(f"merge:raises:{type(e).__name__}",
@@ -489,6 +613,18 @@ def check_merge(ctx, spec, reqs, pending, fock=False):
     finally:
         gm.GaussianUnitary = orig
     out = list(comp.circuit)
+    if not source_untouched(ctx, snap, prog, "gaussian_merge", rp):
+        return
+    if ctx.rng.random() < 0.4:      # the compiler looked up by name, a second time, after other programs were compiled
+        try:
+            again = gc.circuit_signature(list(prog.compile(compiler="gaussian_merge", warn_connected=False).circuit))
+        except Exception as e:  # noqa: BLE001
+            ctx.fail(f"merge:second-compile-raises:{type(e).__name__}", f"a repeated gaussian_merge compile raised {type(e).__name__}: {str(e)[:80]}", rp)
+            return
+        ctx.tally("gaussian_merge:compiled-twice")
+        if again != gc.circuit_signature(out):
+            ctx.fail("merge:second-compile-differs", "compiling the same program twice with 'gaussian_merge' gives different circuits", rp)
+            return
     nt = any(s[2] for s in steps) and any(c.op.__class__.__name__ not in GAUSSIAN for c in out)
     ctx.count("merge:hybrid", spec, nt, sample=dict(spec=spec, out=[str(c) for c in out][:8]))
     # ids of command objects (kept alive in `keep`)
@@ -593,6 +729,11 @@ def check_merge(ctx, spec, reqs, pending, fock=False):
                          blocks=[dict(members=m_ids, emitted=e_ids)], segs=segs))
         pending.append(("merge-step", spec, None))
         ctx.tally("merge:steps-certified")
+        if dag is not None:
+            # the graph after the surgery against the model's edge set (surgeryEdges / surgeryEdgesNil)
+            real = sorted({(cid(a), cid(b)) for a, b in dag[1]})
+            reqs.append(dict(op="gc.surgery", l=lean_cmds(b_ids), ms=m_ids, emitted=lean_cmds([cid(c) for c in emitted])))
+            pending.append(("surgery", dict(spec=spec, members=m_ids, emitted=[cid(c) for c in emitted]), real))
     if ok and fock:
         fock_compare(ctx, spec, prog, comp, rp)
 
@@ -649,9 +790,9 @@ def corpus():
     ]
 
 
-def run_case(ctx, kind, spec, reqs, pending, engine=True, fock=False):
+def run_case(ctx, kind, spec, reqs, pending, engine=True, fock=False, via=None):
     if kind == "gu":
-        oracle_gu(ctx, spec, run_engine=engine)
+        oracle_gu(ctx, spec, run_engine=engine, via=via)
     elif kind == "passive":
         oracle_passive(ctx, spec, run_engine=engine)
     else:
@@ -668,36 +809,60 @@ def load_corpus_files():
     return out
 
 
+def guarded(ctx, kind, spec, fn, *a, **kw):
+    """an exception of the code under test inside an oracle becomes a failing input, not a harness crash"""
+    try:
+        return fn(*a, **kw)
+    except Exception as e:  # noqa: BLE001
+        import traceback
+        where = traceback.extract_tb(e.__traceback__)[-1]
+        ctx.fail(f"{kind}:crash:{type(e).__name__}", f"{type(e).__name__}: {str(e)[:100]} at {where.name}:{where.lineno} while checking a {kind} case",
+                 dict(kind=kind, spec=gc.strip_ex(spec)))
+
+
+def exact_circuit(rng, which, big):
+    spec = gc.rand_exact_circuit(rng, which, big=big)
+    ms = sorted({m for o in spec["ops"] for m in o["regs"]})
+    spec["ops"] = repeat_some(rng, spec["ops"], ms)
+    return spec
+
+
 def run(ctx, sf):
     assert abs(sf.hbar - 2) < 1e-12
     rng = ctx.rng
+    OP_CACHE.clear(); LAST.clear()
     reqs, pending = [], []
     for kind, spec in corpus() + load_corpus_files():
-        run_case(ctx, kind, spec, reqs, pending, engine=True, fock=(kind == "merge"))
+        guarded(ctx, kind, spec, run_case, ctx, kind, spec, reqs, pending, engine=True, fock=(kind == "merge"))
         ctx.count(f"corpus:{kind}", spec, nontrivial(spec))
     # (a) correspondence on rational-atom circuits
     for k in range(ctx.n(220, 2500)):
-        corr_gu(ctx, gc.rand_exact_circuit(rng, "gu", big=(k % 9 == 0)), reqs, pending)
-        corr_passive(ctx, gc.rand_exact_circuit(rng, "passive", big=(k % 9 == 4)), reqs, pending)
+        spec = exact_circuit(rng, "gu", k % 9 == 0)
+        guarded(ctx, "gu", spec, corr_gu, ctx, spec, reqs, pending)
+        spec = exact_circuit(rng, "passive", k % 9 == 4)
+        guarded(ctx, "passive", spec, corr_passive, ctx, spec, reqs, pending)
         if k % 4 == 0:
             corr_functions(ctx, rng, reqs, pending)
         if len(reqs) > 600:
             compare(ctx, reqs, pending); reqs, pending = [], []
-    # (b) float circuits incl. decomposable operations; engine comparison on a third
+    # (b) float circuits incl. decomposable operations; engine comparison on a third; every fifth gaussian_unitary
+    #     case is compiled with gaussian_merge first (two compilers in sequence)
     for k in range(ctx.n(300, 4000)):
         spec = rand_float_circuit(rng, "gu", big=(k % 11 == 0))
-        oracle_gu(ctx, spec, run_engine=(k % 3 == 0))
-        ctx.count("gu:float", spec, nontrivial(spec))
+        guarded(ctx, "gu", spec, oracle_gu, ctx, spec, run_engine=(k % 3 == 0), via=("gaussian_merge" if k % 5 == 2 else None))
+        ctx.count("gu:float" + (":via-merge" if k % 5 == 2 else ""), spec, nontrivial(spec))
         spec = rand_float_circuit(rng, "passive", big=(k % 11 == 5))
-        oracle_passive(ctx, spec, run_engine=(k % 3 == 1))
+        guarded(ctx, "passive", spec, oracle_passive, ctx, spec, run_engine=(k % 3 == 1))
         ctx.count("passive:float", spec, nontrivial(spec))
     # (c) gaussian_merge: certificate per step on hybrid circuits, Fock comparison on a sample
     for k in range(ctx.n(250, 3000)):
-        check_merge(ctx, rand_hybrid(rng), reqs, pending)
+        spec = rand_hybrid(rng)
+        guarded(ctx, "merge", spec, check_merge, ctx, spec, reqs, pending)
         if len(reqs) > 600:
             compare(ctx, reqs, pending); reqs, pending = [], []
     for k in range(ctx.n(25, 300)):
-        check_merge(ctx, rand_hybrid(rng, small=True), reqs, pending, fock=True)
+        spec = rand_hybrid(rng, small=True)
+        guarded(ctx, "merge", spec, check_merge, ctx, spec, reqs, pending, fock=True)
     compare(ctx, reqs, pending)
 
 
@@ -708,5 +873,9 @@ def search(ctx, sf):
 def replay(ctx, rp):
     n0 = len(ctx.failures)
     ctx.proof_ok = False
-    run_case(ctx, rp["kind"], rp["spec"], [], [], engine=rp.get("engine", True), fock=rp.get("fock", False))
+    OP_CACHE.clear(); LAST.clear()
+    if rp.get("then") is not None:      # history-dependence: the other program first
+        guarded(ctx, rp["kind"], rp["then"], run_case, ctx, rp["kind"], rp["then"], [], [], engine=False)
+    guarded(ctx, rp["kind"], rp["spec"], run_case, ctx, rp["kind"], rp["spec"], [], [], engine=rp.get("engine", True),
+            fock=rp.get("fock", False), via=rp.get("via"))
     return len(ctx.failures) > n0
